@@ -12,3 +12,11 @@ func SimNewWal(namespace string, shard int64, options *FactoryOptions, provider 
 	clock time2.Clock, trimmerCheckInterval time.Duration) (Wal, error) {
 	return newWal(namespace, shard, options, provider, clock, trimmerCheckInterval)
 }
+
+// SimLastAppended returns the offset of the last entry appended to the WAL, synced or not.
+func SimLastAppended(w Wal) int64 {
+	if x, ok := w.(*wal); ok {
+		return x.lastAppendedOffset.Load()
+	}
+	return InvalidOffset
+}
